@@ -291,6 +291,26 @@ func Kernel(g *G, thor bool) []Program {
 					emit(M{"k": k, "mem": mem, "zo": zo, "xo": xo, "n": n, "s": s})
 				}
 			}
+			// shifts with the destination overlapping the source at an offset, the way dec.shl / dec.shr call them on one
+			// buffer: shl10VU writes k words ABOVE the words it reads, shr10VU k words BELOW (memmove semantics)
+			if lay == "" && n > 0 {
+				for _, k := range []int{1, 2, 3, 8, n / 2, n - 1, n} {
+					if k < 1 || k > n {
+						continue
+					}
+					for _, sh := range []int{0, 1, 9, 18, g.R.Intn(19)} {
+						if !thor && n > 17 && sh != 0 && g.R.Intn(3) != 0 {
+							continue
+						}
+						x := vec(n, 5)
+						pad := vec(k, 5)
+						up := append(append(append([]any{"7"}, x...), pad...), "7")
+						emit(M{"k": "shl10VU", "mem": up, "xo": 1, "zo": 1 + k, "n": n, "s": sh})
+						down := append(append(append([]any{"7"}, pad...), x...), "7")
+						emit(M{"k": "shr10VU", "mem": down, "xo": 1 + k, "zo": 1, "n": n, "s": sh})
+					}
+				}
+			}
 			// mulAdd10VWW / addMul10VVW / div10VWW
 			mults := []string{"0", "1", "2", "5000000000000000000", wordMax, pow10(1 + g.R.Intn(18)), g.word()}
 			for _, y := range mults {
